@@ -53,6 +53,7 @@ enum OpKind : uint8_t {
   OP_PUSH_TRACER,  // k1 = tracer kind (0 recording, 1 stream_tracer)
   OP_POP_TRACER,
   OP_SET_REPORTER, // k1 = generation to install; k2: 1 = pair form, 0 = single-argument form
+  OP_ARM_REPORTER, // the reporter is user code: on the next non-fatal report it destroys mock object obj (a "tear the fixture down on the first violation" policy)
   OP_NKINDS
 };
 
@@ -136,6 +137,7 @@ struct MState {
   uint8_t ntracer;
   uint8_t tracer_kind[NTRC];
   uint8_t repgen, okgen;
+  uint8_t armed;   // 0 = none, 1 + obj: mock object the reporter destroys on the next non-fatal report
   uint16_t clock;
 };
 
